@@ -16,6 +16,7 @@ from vf.rigs.world import fault_at
 from vf.runner import Ob
 
 LEVEL = "other"
+TECHNIQUE = ('symx: symbolic fault position(s) over the complete call trace of each real commit, per fault kind / call style / backend; concrete replay')
 EXPLANATION = (
     "Bounded symbolic execution (symx/z3) of every commit type with a symbolic fault position over its complete "
     "trace of storage calls (complete for single faults; selected double faults in the thorough tier), for each "
